@@ -347,7 +347,16 @@ def _unpack_simple_filter(
     else:
         filter_type = None
 
-    attribute = current_view[:attribute_end].tobytes().decode("utf-8")
+    try:
+        attribute = current_view[:attribute_end].tobytes().decode("utf-8")
+    except UnicodeDecodeError as e:
+        raise FilterSyntaxError(
+            f"Filter attribute is not valid UTF-8: {e.reason}",
+            filter=filter,
+            offset=offset,
+            length=attribute_end,
+        ) from e
+
     if filter_type != ":" and not _ATTRIBUTE_PATTERN.match(attribute):
         raise FilterSyntaxError(
             "Filter attribute is invalid",
@@ -743,7 +752,16 @@ class LDAPFilter:
             LDAPFilter: The converted filter.
         """
         filter = filter.strip()
-        b_filter = filter.encode("utf-8", errors="surrogateescape")
+        try:
+            b_filter = filter.encode("utf-8", errors="surrogateescape")
+        except UnicodeEncodeError as e:
+            raise FilterSyntaxError(
+                f"Filter contains a character that cannot be encoded: {e.reason}",
+                filter=filter,
+                offset=len(filter[: e.start].encode("utf-8", errors="surrogateescape")),
+                length=0,
+            ) from e
+
         filter_view = memoryview(b_filter)
         filter_obj, consumed = _unpack_filter(filter, filter_view, 0, len(b_filter))
         if consumed < len(b_filter):
